@@ -16,9 +16,15 @@ Gen/Tables.vos Gen/Tables.vok Gen/Tables.required_vos: Gen/Tables.v Engine/Regex
 Extract/Val.vo Extract/Val.glob Extract/Val.v.beautified Extract/Val.required_vo: Extract/Val.v Engine/Regex.vo PyRt/Str.vo
 Extract/Val.vio: Extract/Val.v Engine/Regex.vio PyRt/Str.vio
 Extract/Val.vos Extract/Val.vok Extract/Val.required_vos: Extract/Val.v Engine/Regex.vos PyRt/Str.vos
-Extract/Driver.vo Extract/Driver.glob Extract/Driver.v.beautified Extract/Driver.required_vo: Extract/Driver.v Engine/Regex.vo Gen/Patterns.vo PyRt/Str.vo Extract/Val.vo Model/Aliquot.vo
-Extract/Driver.vio: Extract/Driver.v Engine/Regex.vio Gen/Patterns.vio PyRt/Str.vio Extract/Val.vio Model/Aliquot.vio
-Extract/Driver.vos Extract/Driver.vok Extract/Driver.required_vos: Extract/Driver.v Engine/Regex.vos Gen/Patterns.vos PyRt/Str.vos Extract/Val.vos Model/Aliquot.vos
+Extract/DispBase.vo Extract/DispBase.glob Extract/DispBase.v.beautified Extract/DispBase.required_vo: Extract/DispBase.v Engine/Regex.vo Gen/Patterns.vo PyRt/Str.vo Extract/Val.vo
+Extract/DispBase.vio: Extract/DispBase.v Engine/Regex.vio Gen/Patterns.vio PyRt/Str.vio Extract/Val.vio
+Extract/DispBase.vos Extract/DispBase.vok Extract/DispBase.required_vos: Extract/DispBase.v Engine/Regex.vos Gen/Patterns.vos PyRt/Str.vos Extract/Val.vos
+Extract/DispAliquot.vo Extract/DispAliquot.glob Extract/DispAliquot.v.beautified Extract/DispAliquot.required_vo: Extract/DispAliquot.v Engine/Regex.vo PyRt/Str.vo Extract/Val.vo Extract/DispBase.vo Model/Aliquot.vo
+Extract/DispAliquot.vio: Extract/DispAliquot.v Engine/Regex.vio PyRt/Str.vio Extract/Val.vio Extract/DispBase.vio Model/Aliquot.vio
+Extract/DispAliquot.vos Extract/DispAliquot.vok Extract/DispAliquot.required_vos: Extract/DispAliquot.v Engine/Regex.vos PyRt/Str.vos Extract/Val.vos Extract/DispBase.vos Model/Aliquot.vos
+Extract/Drv_aliquot.vo Extract/Drv_aliquot.glob Extract/Drv_aliquot.v.beautified Extract/Drv_aliquot.required_vo: Extract/Drv_aliquot.v Engine/Regex.vo Extract/Val.vo Extract/DispBase.vo Extract/DispAliquot.vo
+Extract/Drv_aliquot.vio: Extract/Drv_aliquot.v Engine/Regex.vio Extract/Val.vio Extract/DispBase.vio Extract/DispAliquot.vio
+Extract/Drv_aliquot.vos Extract/Drv_aliquot.vok Extract/Drv_aliquot.required_vos: Extract/Drv_aliquot.v Engine/Regex.vos Extract/Val.vos Extract/DispBase.vos Extract/DispAliquot.vos
 Model/Aliquot.vo Model/Aliquot.glob Model/Aliquot.v.beautified Model/Aliquot.required_vo: Model/Aliquot.v Engine/Regex.vo Gen/Patterns.vo PyRt/Str.vo Gen/Tables.vo
 Model/Aliquot.vio: Model/Aliquot.v Engine/Regex.vio Gen/Patterns.vio PyRt/Str.vio Gen/Tables.vio
 Model/Aliquot.vos Model/Aliquot.vok Model/Aliquot.required_vos: Model/Aliquot.v Engine/Regex.vos Gen/Patterns.vos PyRt/Str.vos Gen/Tables.vos
@@ -28,3 +34,6 @@ Spec/Geometry.vos Spec/Geometry.vok Spec/Geometry.required_vos: Spec/Geometry.v 
 Spec/C02Spec.vo Spec/C02Spec.glob Spec/C02Spec.v.beautified Spec/C02Spec.required_vo: Spec/C02Spec.v Model/Aliquot.vo Spec/Geometry.vo
 Spec/C02Spec.vio: Spec/C02Spec.v Model/Aliquot.vio Spec/Geometry.vio
 Spec/C02Spec.vos Spec/C02Spec.vok Spec/C02Spec.required_vos: Spec/C02Spec.v Model/Aliquot.vos Spec/Geometry.vos
+Properties/C02.vo Properties/C02.glob Properties/C02.v.beautified Properties/C02.required_vo: Properties/C02.v Model/Aliquot.vo Spec/Geometry.vo Spec/C02Spec.vo
+Properties/C02.vio: Properties/C02.v Model/Aliquot.vio Spec/Geometry.vio Spec/C02Spec.vio
+Properties/C02.vos Properties/C02.vok Properties/C02.required_vos: Properties/C02.v Model/Aliquot.vos Spec/Geometry.vos Spec/C02Spec.vos
